@@ -18,9 +18,13 @@ Keep(ev) == {ev.keep[i] : i \in DOMAIN ev.keep}
 PreOf(ev) == IF ev.op = "remove_short_circuit_elements" THEN ev.br
              ELSE IF ev.op = "remove_ideal_voltage_sources" THEN ZeroV(ev.br, Keep(ev))
              ELSE ZeroV(RemoveOpen(ZeroI(ev.br, Keep(ev))), Keep(ev))                \* passive_network
-ExactWhy(want, out) == IF Len(want) # Len(out) THEN "branch_count"
-                       ELSE IF \E i \in DOMAIN want : want[i].id # out[i].id \/ want[i].n1 # out[i].n1 \/ want[i].n2 # out[i].n2 THEN "ids_or_terminals"
-                       ELSE IF \E i \in DOMAIN want : ~SameElemE(want[i].e, out[i].e) THEN "element"
+\* the result of an operation without contraction: exactly the wanted branches, matched by identifier (the order of the list is not
+\* part of the property)
+ExactWhy(want, out) == LET outIds == {out[j].id : j \in DOMAIN out} IN
+                       IF Len(want) # Len(out) THEN "branch_count"
+                       ELSE IF Cardinality(outIds) # Len(out) \/ outIds # {want[i].id : i \in DOMAIN want} THEN "ids_or_terminals"
+                       ELSE IF \E i \in DOMAIN want : LET o == out[OutIdx(out, want[i].id)] IN want[i].n1 # o.n1 \/ want[i].n2 # o.n2 THEN "ids_or_terminals"
+                       ELSE IF \E i \in DOMAIN want : ~SameElemE(want[i].e, out[OutIdx(out, want[i].id)].e) THEN "element"
                        ELSE "ok"
 DisjointShortsOf(b, K) == \A i, j \in ShortIdx(b, K) : i # j => {b[i].n1, b[i].n2} \cap {b[j].n1, b[j].n2} = {}
 Verdict(ev) ==
